@@ -383,7 +383,8 @@ def gen_config(rng, i, budget_scale=1):
     box = ["bounded", "unbounded", "tight", "positive"][(i // 3) % 4] if i % 4 else "bounded"
     width = rng.choice([2.0, 4.0, 6.0])
     with_cons = (i % 5 == 3) or (i % 11 == 7)
-    cfg = dict(D=D, target=target, shape=shape, box=box, width=width, x0=x0, seed=rng.randrange(0, 2 ** 31 - 1),
+    cfg = dict(D=D, target=target, shape=shape, box=box, width=width, x0=x0,
+               seed=(0 if i % 6 == 5 else rng.randrange(0, 2 ** 31 - 1)),          # random_seed = 0 is a seed like any other
                sigma=rng.choice([0.1, 0.5, 1.0]))
     if box == "positive":
         cfg["shift"] = [round(rng.uniform(0.8, width * 0.8), 3) for _ in range(D)]
@@ -406,6 +407,11 @@ def gen_config(rng, i, budget_scale=1):
     else:
         cfg["budget"] = rng.choice([50, 60, 60])      # noisy runs keep evaluations for the final estimate
     cfg["budget"] *= budget_scale
+    if i % 6 == 2:
+        # a LONG run (the hedge over search strategies only matters after many search steps): history-dependent option defaults
+        # such as hedge_beta = 1e-3 / tol_fun show up late
+        cfg["budget"] = max(cfg["budget"], 120)
+        cfg["long"] = True
     opts = {}
     if target != "det" and rng.random() < 0.5:
         opts["noise_final_samples"] = rng.choice([3, 5, 10])
@@ -438,7 +444,7 @@ def gen_np_state(rng):
 
 
 HISTORY_KINDS = ["none", "draws", "seed", "foreign_opt", "interleaved_construct", "same_twice", "mixed", "interleaved_opt",
-                 "interleaved_draws", "np_state"]
+                 "interleaved_draws", "np_state", "same_D_other_options"]
 
 
 def gen_history(rng, kind, cfg):
@@ -452,6 +458,15 @@ def gen_history(rng, kind, cfg):
             pre.append(dict(op="draw_normal", k=rng.randrange(1, 50)))
         if rng.random() < 0.5:
             pre.append(gen_np_state(rng))
+    elif kind == "same_D_other_options":
+        # an earlier instance of the SAME dimension with different user options that dependent defaults are derived from
+        # (what a process-wide cache of evaluated defaults keyed by D would remember)
+        sp = gen_foreign_spec(rng, None)
+        sp["D"] = D
+        sp.setdefault("options", {})["tol_fun"] = rng.choice([0.5, 1e-6])
+        pre = [dict(op="construct", spec=sp)]
+        if rng.random() < 0.5:
+            pre.append(dict(op="optimize", spec=dict(sp, budget=25)))
     elif kind == "np_state":
         pre = [gen_np_state(rng)]
         if rng.random() < 0.5:
@@ -491,8 +506,11 @@ def gen_history(rng, kind, cfg):
 def gen_histories(rng, cfg, n, i):
     """history 0 is always 'none' (the reference); the others rotate through the kinds so that a small
     panel still contains each kind, interleaved kinds first."""
-    order = ["interleaved_draws", "foreign_opt", "np_state", "interleaved_construct", "mixed", "same_twice", "draws", "seed", "interleaved_opt"]
+    order = ["interleaved_draws", "foreign_opt", "np_state", "same_D_other_options", "interleaved_construct", "mixed", "same_twice", "draws", "seed", "interleaved_opt"]
     out = [gen_history(rng, "none", cfg)]
+    if cfg.get("long"):
+        out.append(gen_history(rng, "same_D_other_options", cfg))
+        n -= 1
     for j in range(n - 1):
         out.append(gen_history(rng, order[(i * (n - 1) + j) % len(order)], cfg))
     return out
